@@ -132,6 +132,16 @@ def pressure_script(rnd, mb=(20, 26)):
             ("wait_end", reader)]
 
 
+def slow_drain_script(rnd, direction=None):
+    """The reader is so slow that what the kernels still hold for it when the writer closes takes longer to drain than the
+    relay's close grace: the relay gives the silent opposite direction up and drops its sockets while the tail is still
+    queued in them.  An orderly drop leaves the delivery to the kernel; everything written must still arrive."""
+    d = direction or rnd.choice(["down", "up"])
+    reader, closer = ("app", "tgt_close") if d == "down" else ("tgt", "app_close")
+    n = rnd.randint(5 << 20, 6 << 20)
+    return [("up", rnd.randint(1, 2000)), ("sync",), ("throttle", reader, 0.05), (d, n), (closer, "close"), ("wait_end", reader)]
+
+
 def hold_script(rnd, big=(100000, 300000)):
     """One outer side closes for good, the other sees the end, keeps its connection open and stays silent (a peer that ignores
     end-of-stream, or one that is gone without a trace): both processes have to let go of the flow on their own."""
@@ -301,7 +311,7 @@ def model(c, tier, devs=True):
         if not r.ok:
             c.violation("model: TcpRelay (%s) violates %s" % (k, r.violated or r.error), {"cfg": k, "tail": r.out[-3000:]})
     if devs:
-        names = ["DropOnFirstClose", "DropOnFirstClose_tcp", "DropOnFirstClose_quic", "QuicNoWaitStopped", "JoinBoth", "NoSinkClose", "WsCloseEndsBoth"]
+        names = ["DropOnFirstClose", "DropOnFirstClose_tcp", "DropOnFirstClose_quic", "QuicNoWaitStopped", "JoinBoth", "NoSinkClose", "WsCloseEndsBoth", "CloseSkipsFlush", "NoKeepAlive"]
         jobs = [dict(module="MCTcpRelay", cfg="MCTcpRelay_dev_%s.cfg" % k, workers=2, timeout=900) for k in names]
         res = vlib.tlc_parallel(jobs, parallel=4)
         seen = {}
